@@ -172,6 +172,20 @@ def main(chk, replay=None):
         prog = progs.gen_program(rng, nfns=rng.randint(2, 5), exc_rate=0.5)
         f = rng.choice(sorted(prog["fns"]))
         backend = rng.choice(["memory", "fs", "fs+cache"])
+        # directed: a new session in which a cached element precedes elements that are on disk only, and a new element
+        for (dargs, dpre, dwarm) in (([2, 0, 1, 3], [0, 1, 2], [2]), ([0, 2, 1, 0], [0, 1, 2], [0, 1])):
+            r = trial(prog, "fs+cache", dpre, f, dargs, "i", False, False, proof_ok, chk.tmpdir(), dwarm)
+            chk.case([prog, "fs+cache", dpre, f, dargs, "i", False, False, dwarm], nontrivial=True,
+                     sample=dict(f=f, args=dargs, pre=dpre, warm=dwarm, backend="fs+cache"))
+            chk.count("new-session-before-batch")
+            for mm in r["mismatch"]:
+                chk.correspondence_break("batch-op", dict(program=prog, backend="fs+cache", pre=dpre, **mm))
+            if r["fails"] and reported < 4:
+                reported += 1
+                fl = r["fails"][0]
+                chk.violation({"what": "batch differs from element-wise evaluation: %s" % fl["clause"], "class": {"clause": fl["clause"], "map_over_range": False},
+                               "program": prog, "backend": "fs+cache", "pre": dpre, "f": f, "args": dargs, "ctx": "i", "rf": False, "use_map": False,
+                               "warm": dwarm, "observed": r["fails"][:2], "source": progs.render(prog, "replay")})
         for _ in range(4 if quick else 6):
             args = [rng.choice([0, 1, 2, 3]) for _ in range(rng.randint(0, 6))]
             ctx = rng.choice(["i", "i", 1, 0])
